@@ -164,9 +164,26 @@ def setter_frames(trace, spans=None):
     spans = spans or frame_spans(trace)
     out = []
     for fid, (a, b, func, recv, args) in sorted(spans.items()):
-        if func.kind == "setter" and func.srcname == "parent":
+        if (func.kind == "setter" and func.srcname == "parent") or _is_parent_assignment_body(func):
             out.append((fid, a, b, func, recv, args[0] if args else ("arg", func.posparams[1])))
     return out
+
+
+_PA_CACHE = {}
+
+
+def _is_parent_assignment_body(func):
+    """a private method that carries the body of the parent assignment (loop check, detach, attach - in this order): the parent
+    setter delegating to it, and the children setter calling it per child, are parent assignments all the same"""
+    if func not in _PA_CACHE:
+        import ast as _a
+        ok = False
+        if func.kind == "method" and func.srcname.startswith("__") and not func.srcname.endswith("__"):
+            calls = [c.func.attr for c in _a.walk(func.node) if isinstance(c, _a.Call) and isinstance(c.func, _a.Attribute)
+                     and c.func.attr in ("__check_loop", "__detach", "__attach")]
+            ok = calls == ["__check_loop", "__detach", "__attach"]
+        _PA_CACHE[func] = ok
+    return _PA_CACHE[func]
 
 
 def entry_value_role(func):
@@ -226,7 +243,9 @@ class MixinAnalysis:
                 same_tested = any(ev.kind == "GUARD" and ev.name == "is" and {ev.a, ev.b} == {x, q} and ev.outcome is False
                                   for ev in pre)
                 scan = any(ev.kind == "GUARD" and ev.name == "ancestor-scan" and ev.a == x and ev.outcome is False
-                           and (ev.b == ("chain", q) or (same_tested and ev.b == ("properchain", q))) for ev in pre)
+                           and (ev.b in (("chain", q), ("tuple", ("chain", q)), ("copy", ("chain", q)))
+                                or (same_tested and ev.b == ("properchain", q))) for ev in pre)
+                # (a tuple of the chain taken earlier in the same call is the same chain: attaching below q does not change q's ancestors)
                 loop_scan = False
                 for ev in pre:
                     if ev.kind == "LOOPEND" and ev.a == ("chain", q):
@@ -455,9 +474,10 @@ class MixinAnalysis:
                 def _inside_parent_assignment(k):
                     depth_ = 0
                     for ev in trace[:k]:
-                        if ev.kind == "ENTER" and ev.func.kind == "setter" and ev.func.srcname == "parent":
+                        pa_ = (ev.func.kind == "setter" and ev.func.srcname == "parent") or _is_parent_assignment_body(ev.func)
+                        if ev.kind == "ENTER" and pa_:
                             depth_ += 1
-                        elif ev.kind in ("EXIT", "EXITRAISE") and ev.func.kind == "setter" and ev.func.srcname == "parent":
+                        elif ev.kind in ("EXIT", "EXITRAISE") and pa_:
                             depth_ -= 1
                     return depth_ > 0
                 # (a refusal raised by the per-child `child.parent = node` in the middle of the loop is the recorded defect itself;
